@@ -823,6 +823,64 @@ func c15Retype(r *core.Rng, t *hist.Table, id uint64, noJSON bool) *hist.Table {
 	return v
 }
 
+// c15RemetaOnly makes another version of the table in which every column keeps
+// its type and only metadata change (VARCHAR length class, DECIMAL precision and
+// scale, fractional-second digits, BIT width, CHAR length class, blob prefix).
+// It returns nil when no column carries metadata.
+func c15RemetaOnly(r *core.Rng, t *hist.Table, id uint64) *hist.Table {
+	v := &hist.Table{ID: id, DB: t.DB, Name: t.Name, Flags: t.Flags, Cols: append([]hist.Column(nil), t.Cols...)}
+	changed := false
+	for i := 1; i < len(v.Cols); i++ {
+		col := &v.Cols[i]
+		old := col.Meta
+		switch col.Type {
+		case ev.TVarchar, ev.TVarString:
+			if col.Meta > 255 {
+				col.Meta = uint16(r.Intn(256))
+			} else {
+				col.Meta = uint16(256 + r.Intn(1000))
+			}
+		case ev.TNewDecimal:
+			// same stored size or not, both are interesting: (10,2) -> (10,4) keeps 5 bytes
+			p, s := int(col.Meta>>8), int(col.Meta&0xff)
+			for k := 0; k < 20 && int(col.Meta) == int(old); k++ {
+				ns := r.Intn(p + 1)
+				if ns > 30 {
+					ns = 30
+				}
+				if ns != s {
+					col.Meta = uint16(p)<<8 | uint16(ns)
+				}
+			}
+		case ev.TTimestamp2, ev.TDateTime2, ev.TTime2:
+			col.Meta = uint16((int(col.Meta) + 1 + r.Intn(6)) % 7)
+		case ev.TBit:
+			for int(col.Meta) == int(old) {
+				bits := 1 + r.Intn(64)
+				col.Meta = uint16(bits/8)<<8 | uint16(bits%8)
+			}
+		case ev.TBlob, ev.TGeometry, ev.TTinyBlob, ev.TMediumBlob, ev.TLongBlob:
+			col.Meta = uint16(1 + (int(col.Meta)+r.Intn(3))%4)
+		case ev.TString:
+			if rt := byte(col.Meta >> 8); rt != ev.TEnum && rt != ev.TSet {
+				max := int((((col.Meta >> 4) & 0x300) ^ 0x300) + (col.Meta & 0xff))
+				if max > 255 {
+					col.Meta = gen.StringMeta(ev.TString, r.Intn(256))
+				} else {
+					col.Meta = gen.StringMeta(ev.TString, 256+r.Intn(700))
+				}
+			}
+		}
+		if col.Meta != old {
+			changed = true
+		}
+	}
+	if !changed {
+		return nil
+	}
+	return v
+}
+
 func c15History(c *core.Ctx, idx int) (*hist.History, []*hist.Table, *c15Info) {
 	r := c.Rng(core.StrID("c15hist"), uint64(idx))
 	cb := allCombos()[idx%24]
@@ -882,10 +940,16 @@ func c15History(c *core.Ctx, idx int) (*hist.History, []*hist.Table, *c15Info) {
 	pool = append(pool, firsts...)
 	for li, t := range firsts {
 		if len(t.Cols) > 1 && r.Chance(2, 3) {
-			v := c15Retype(r, t, t.ID, o.NoJSON) // the same id re-announced with other types
-			pool = append(pool, v)
-			versions = append(versions, v)
-			feat["reannounced-id-other-types"] = true
+			if v := c15RemetaOnly(r, t, t.ID); v != nil && r.Chance(1, 2) {
+				pool = append(pool, v) // the same id re-announced with the same types, other metadata
+				versions = append(versions, v)
+				feat["reannounced-id-same-types-other-metadata"] = true
+			} else {
+				v := c15Retype(r, t, t.ID, o.NoJSON) // the same id re-announced with other types
+				pool = append(pool, v)
+				versions = append(versions, v)
+				feat["reannounced-id-other-types"] = true
+			}
 		}
 		if r.Chance(1, 2) {
 			a := &hist.Table{ID: newID(), DB: t.DB, Name: t.Name, Flags: t.Flags, Cols: append([]hist.Column(nil), t.Cols...)}
@@ -994,7 +1058,7 @@ func c15History(c *core.Ctx, idx int) (*hist.History, []*hist.Table, *c15Info) {
 			i--
 		}
 	}
-	for _, k := range []string{"reannounced-id-other-types", "same-table-two-ids", "same-table-new-id-other-types", "announced-but-unused",
+	for _, k := range []string{"reannounced-id-same-types-other-metadata", "reannounced-id-other-types", "same-table-two-ids", "same-table-new-id-other-types", "announced-but-unused",
 		"ids-interleaved-in-statement", "rotate"} {
 		if feat[k] {
 			info.Features = append(info.Features, k)
